@@ -147,7 +147,10 @@ class BufferedReader(io.RawIOBase):
         return b[:n]
 
     def readall(self):
-        self.reader.seek(self.pos)
-        rv = self.reader.read()
+        self.reader.seek(self.pos + self.offset)
+        if self.size is None:
+            rv = self.reader.read()
+        else:
+            rv = self.reader.read(max(0, self.size - self.pos))
         self.pos += len(rv)
         return rv
